@@ -79,7 +79,10 @@ fn variants(rng: &mut Rng, k: u32) -> Vec<(&'static str, String)> {
         ("type", "type cd; type rc; command -v echo; type nosuchcmd; echo \"?=$?\"".to_string()),
         ("async-wait", format!("{{ echo w{k} >f3; exit 3; }} & wait $!; echo \"?=$?\"; cat f3")),
         ("trap-self-signal", format!("trap 'echo trapped{k}' USR1; kill -s USR1 $$; echo after{k}; trap - USR1")),
-        ("kill-child", "{ nap 200; echo never >nf; } & p=$!; kill -s TERM $p; wait $p; echo \"?=$?\"".to_string()),
+("trap-child-signal", format!("trap 'echo got{k}' USR1; x=$(kill -s USR1 $$; echo a)$(echo b{k}); echo \"x=$x ?=$?\"; trap - USR1")),
+        ("trap-child-signal", format!("trap 'echo got{k}' USR1; ( kill -s USR1 $$; echo sent ); ( echo c{k} ); echo \"?=$?\"; trap - USR1")),
+        ("trap-child-signal", format!("trap ': got' USR1 TERM; v=$(kill -s TERM $$; kill -s USR1 $$; echo a{k}); w=$(echo b; rc 3); echo \"$v$w ?=$?\"; {{ echo p{k}; }} | cat; trap - USR1 TERM")),
+                ("kill-child", "{ nap 200; echo never >nf; } & p=$!; kill -s TERM $p; wait $p; echo \"?=$?\"".to_string()),
         ("umask", format!("umask {}; echo w{k} >m{k}; umask 022", rng.pick(&["027", "077", "002"]))),
         ("dir-as-file", format!("echo w{k} >d; echo \"?=$?\"")),
         ("dir-as-file", format!("echo w{k} >>d; echo \"?=$?\"; echo v{k} >|empty; echo \"?=$?\"")),
